@@ -71,25 +71,71 @@ class Assume:
     condition and answers True / False / None (unknown).  Branch tests and conditional expressions are
     evaluated three-valued over their atoms; an edge whose test is decided the other way is infeasible."""
 
-    def __init__(self, fa, atom):
+    def __init__(self, fa, atom, nonnull=None):
+        """`nonnull` (opt-in): names of calls whose result is an object, never None / falsy.  With it, a local used as a
+        result variable (`found = None` ... `found = lookup(k)` ... `if found is None: found = write(k)`) is followed: a
+        test `v is None` / `v is not None` / `v` / `not v` is decided when, under the assumptions, every definition of `v`
+        that can reach it is None (resp. is a `nonnull` call or a non-None constant)."""
         self.fa = fa
         self.atom = atom
         self._t = {}
         self._in = None
+        self.nonnull = tuple(nonnull) if nonnull is not None else None
+        self._in1 = None
+        self._busy = False
 
     # -- three-valued truth --------------------------------------------------------------------
-    def ev(self, e):
+    def _none_state(self, name, node_id):
+        """'none' / 'value' when every definition of the local `name` that reaches `node_id` under the assumptions is
+        None / an object; None when that is not known"""
+        if self.nonnull is None or node_id is None or self._busy:
+            return None
+        if self._in1 is None:
+            self.IN()
+        ds = [d for d in (self._in1 or {}).get(node_id, ()) if d.name == name]
+        if not ds:
+            return None
+        states = set()
+        for d in ds:
+            v = d.value
+            if d.kind != "assign" or v is None:
+                return None
+            v = strip_casts(v)
+            if isinstance(v, ast.Constant):
+                states.add("none" if v.value is None else ("value" if v.value else "?"))
+            elif isinstance(v, ast.Call) and A.call_attr(v) in self.nonnull:
+                states.add("value")
+            else:
+                return None
+        return states.pop() if len(states) == 1 and "?" not in states else None
+
+    def ev(self, e, node_id=None):
         e = strip_casts(e)
         v = self.atom(e)
         if v is not None:
             return v
         if isinstance(e, ast.Constant):
             return bool(e.value)
+        if self.nonnull is not None:
+            if isinstance(e, ast.Call) and A.call_attr(e) in self.nonnull:
+                return True
+            if isinstance(e, ast.Name):
+                st = self._none_state(e.id, node_id)
+                if st is not None:
+                    return st == "value"
+            if isinstance(e, ast.Compare) and len(e.ops) == 1 and isinstance(e.ops[0], ast.Is) and A.is_none(e.comparators[0]):
+                l_ = strip_casts(e.left)
+                if isinstance(l_, ast.Name):
+                    st = self._none_state(l_.id, node_id)
+                    if st is not None:
+                        return st == "none"
+                if isinstance(l_, ast.Call) and A.call_attr(l_) in self.nonnull:
+                    return False
         if isinstance(e, ast.UnaryOp) and isinstance(e.op, ast.Not):
-            r = self.ev(e.operand)
+            r = self.ev(e.operand, node_id)
             return None if r is None else (not r)
         if isinstance(e, ast.BoolOp):
-            rs = [self.ev(v_) for v_ in e.values]
+            rs = [self.ev(v_, node_id) for v_ in e.values]
             if isinstance(e.op, ast.And):
                 if any(r is False for r in rs):
                     return False
@@ -99,15 +145,15 @@ class Assume:
             return False if all(r is False for r in rs) else None
         if isinstance(e, ast.Compare) and len(e.ops) == 1 and type(e.ops[0]) in _NEG_OPS:
             pos = ast.Compare(left=e.left, ops=[_NEG_OPS[type(e.ops[0])]()], comparators=e.comparators)
-            r = self.ev(pos)
+            r = self.ev(pos, node_id)
             return None if r is None else (not r)
         if isinstance(e, ast.IfExp):
-            t = self.ev(e.test)
+            t = self.ev(e.test, node_id)
             if t is True:
-                return self.ev(e.body)
+                return self.ev(e.body, node_id)
             if t is False:
-                return self.ev(e.orelse)
-            a, b = self.ev(e.body), self.ev(e.orelse)
+                return self.ev(e.orelse, node_id)
+            a, b = self.ev(e.body, node_id), self.ev(e.orelse, node_id)
             return a if a == b else None
         return None
 
@@ -118,7 +164,10 @@ class Assume:
                 e = self.fa.expand(test, node_id)
             except Exception:  # noqa - an expression the expander cannot place: unknown
                 e = test
-            self._t[k] = self.ev(e)
+            r = self.ev(e, node_id)
+            if self._busy:
+                return r           # first pass of IN(): result variables not followed yet, do not remember
+            self._t[k] = r
         return self._t[k]
 
     # -- control flow --------------------------------------------------------------------------
@@ -139,6 +188,56 @@ class Assume:
         """CFG nodes of `astnode` that are reachable from the entry under the assumptions."""
         r = self.reach()
         return [i for i in self.fa.nodes(astnode) if i in r]
+
+    # -- inside one statement: conditional expressions and short-circuits ----------------------------
+    def evaluated(self, sub, node_id):
+        """Is the sub-expression `sub` evaluated when the statement at CFG node `node_id` (which contains it) runs?
+        True: on every run, False: on none, None: the assumptions do not decide.  Arms of conditional expressions and
+        operands behind an `and` / `or` are evaluated only when the tests before them come out accordingly, so
+        `return reuse(k) if present else write(k)` is treated as the if/else statement it abbreviates."""
+        pm = self.fa.pm
+        top = self.fa.cfg.node(node_id).ast
+        verdict = True
+        n = sub
+        while n is not None and n is not top and not isinstance(n, ast.stmt):
+            p = pm.get(n)
+            if p is None:
+                break
+            if isinstance(p, ast.IfExp) and n is not p.test:
+                t = self.truth(p.test, node_id)
+                if t is None:
+                    verdict = None
+                elif t != (n is p.body):
+                    return False
+            elif isinstance(p, ast.BoolOp) and p.values and n is not p.values[0]:
+                for v in p.values:
+                    if v is n:
+                        break
+                    t = self.truth(v, node_id)
+                    if t is None:
+                        verdict = None
+                    elif t != isinstance(p.op, ast.And):
+                        return False       # an earlier operand already decided the and / or
+            elif isinstance(p, (ast.ListComp, ast.SetComp, ast.GeneratorExp, ast.DictComp)):
+                first_iter = p.generators[0].iter if p.generators else None
+                if n is not first_iter and not (isinstance(n, ast.comprehension) and n is p.generators[0]):
+                    verdict = None         # per element
+            elif isinstance(p, ast.comprehension):
+                if not (n is p.iter):
+                    verdict = None
+            elif isinstance(p, ast.Lambda):
+                verdict = None
+            n = p
+        return verdict
+
+    def may_run(self, astnode):
+        """CFG nodes at which `astnode` (an expression or a statement) may be evaluated under the assumptions"""
+        r = self.reach()
+        return [i for i in self.fa.nodes(astnode) if i in r and (isinstance(astnode, ast.stmt) or self.evaluated(astnode, i) is not False)]
+
+    def must_run(self, astnode):
+        """CFG nodes whose execution under the assumptions always evaluates `astnode`"""
+        return [i for i in self.fa.nodes(astnode) if isinstance(astnode, ast.stmt) or self.evaluated(astnode, i) is True]
 
     # -- reaching definitions restricted to the feasible edges -----------------------------------
     def flow(self, seeds=None, removed=()):
@@ -180,7 +279,18 @@ class Assume:
 
     def IN(self):
         if self._in is None:
-            self._in = self.flow()
+            if self.nonnull is None:
+                self._in = self.flow()
+            else:
+                # two passes: reaching definitions with result-variable tests undecided (an over-approximation), from
+                # which those tests are then decided for the final pass
+                self._busy = True
+                try:
+                    self._in1 = self.flow()
+                finally:
+                    self._busy = False
+                self._t = {}
+                self._in = self.flow()
         return self._in
 
     def handler_seed(self, hn):
@@ -210,6 +320,18 @@ class Assume:
                     rec(e.body, n, dep - 1)
                 if t is not True:
                     rec(e.orelse, n, dep - 1)
+                return
+            if isinstance(e, ast.BoolOp) and self.nonnull is not None:
+                # `a or b` is a when a is truthy, else b; `a and b` is b when a is truthy, else a
+                for j, v_ in enumerate(e.values):
+                    last = j == len(e.values) - 1
+                    t = None if last else self.truth(v_, n)
+                    stops = (t is True) if isinstance(e.op, ast.Or) else (t is False)
+                    goes_on = (t is False) if isinstance(e.op, ast.Or) else (t is True)
+                    if last or not goes_on:
+                        rec(v_, n, dep - 1)
+                    if last or stops:
+                        return
                 return
             if isinstance(e, ast.Name) and isinstance(e.ctx, ast.Load):
                 ds = [d for d in IN.get(n, ()) if d.name == e.id]
